@@ -17,4 +17,17 @@ def load():
         "trusts TLC, the Go harness projection (harness/internal/tr), sha256-prefix content comparison; bounded depth and 3 mailboxes",
         "TLA+ contract + TLC-generated behaviours replayed on real stores + TLC trace validation",
         "DESIGN.md 5/C07", "mailstore")
+    reg("C08", stores.c08, "model_checking",
+        "TLC checks CapInv, SizeInv, RecentSuffix, EvictOldestFirst, EvictOnlyNecessary, FitsIsRetrievable on the contract for every cap x limit "
+        "combination; TLC-enumerated and simulated delivery/removal/purge histories are executed on the real stores under every cap x maxkb "
+        "configuration and each step's whole-store state is validated against the contract by TLC.",
+        "as C07; sizes 300..900 bytes against limits of 1-2 KiB; drift explored by histories of 120 (quick) / 400 (thorough) operations",
+        "TLA+ contract invariants + TLC-generated histories replayed on real stores + TLC trace validation",
+        "DESIGN.md 5/C08", "mailstore")
+    reg("C10", stores.c10, "model_checking",
+        "Reopen is a stuttering step of the contract; TLC enumerates histories with a reopen at every position and the real file store's "
+        "state after the reopen and after every later operation is validated against the contract by TLC.",
+        "as C07; reopen is in-process (new Store object on the same path)",
+        "TLA+ contract + TLC-generated histories with reopen points replayed on the real file store + TLC trace validation",
+        "DESIGN.md 5/C10", "mailstore")
     return REG
